@@ -174,12 +174,28 @@ pub fn gen_case(rng: &mut Rng, kind: &str) -> Value {
     if kind == "single" {
         case["job"] = json!({"places": gen_places(rng, n, horizon), "dem": gen_single_dem(rng, dims, true)});
     } else {
-        // pickup then delivery of the same shipment (dynamic demand)
+        // pickup then delivery of the same shipment (dynamic demand); every third job has THREE tasks (two pickups and the
+        // delivery of both, or one pickup delivered in two parts): the sequential search then writes more than once into its
+        // working copy of the tour
         let p = rnd_load(rng, dims, 3);
-        case["jobs"] = json!([
-            {"places": gen_places(rng, n, horizon), "dem": [zero(dims), p.clone(), zero(dims), zero(dims)]},
-            {"places": gen_places(rng, n, horizon), "dem": [zero(dims), zero(dims), zero(dims), p]},
-        ]);
+        let q = rnd_load(rng, dims, 2);
+        let sum: Vec<i64> = p.iter().zip(q.iter()).map(|(a, b)| a + b).collect();
+        case["jobs"] = match rng.below(6) {
+            0 => json!([
+                {"places": gen_places(rng, n, horizon), "dem": [zero(dims), p.clone(), zero(dims), zero(dims)]},
+                {"places": gen_places(rng, n, horizon), "dem": [zero(dims), q.clone(), zero(dims), zero(dims)]},
+                {"places": gen_places(rng, n, horizon), "dem": [zero(dims), zero(dims), zero(dims), sum]},
+            ]),
+            1 => json!([
+                {"places": gen_places(rng, n, horizon), "dem": [zero(dims), sum, zero(dims), zero(dims)]},
+                {"places": gen_places(rng, n, horizon), "dem": [zero(dims), zero(dims), zero(dims), p.clone()]},
+                {"places": gen_places(rng, n, horizon), "dem": [zero(dims), zero(dims), zero(dims), q.clone()]},
+            ]),
+            _ => json!([
+                {"places": gen_places(rng, n, horizon), "dem": [zero(dims), p.clone(), zero(dims), zero(dims)]},
+                {"places": gen_places(rng, n, horizon), "dem": [zero(dims), zero(dims), zero(dims), p]},
+            ]),
+        };
     }
     case
 }
